@@ -40,6 +40,8 @@ ASSUMPTIONS = [
     '(set_outputs after renaming outputs: names of de-selected outputs are '
     'dropped, as a fresh model would show them)',
     'reference integrator behind myokit.Simulation (DESIGN 2.2)',
+    'a ReducedMechanisticModel is not wrapped around a model with a sensitivity subset (no documented meaning)',
+    'a configuration call that the model refuses (KeyError / ValueError for outputs that do not exist for the new route) must leave the model unchanged; it does not count as part of the net configuration',
 ]
 ANCHORS = [
     'chi._mechanistic_models.PKPDModel.set_administration',
